@@ -34,6 +34,9 @@ POLICIES = {
     "nosession": dict(session="refuse"),
     "notcp": dict(),
     "nofclose": dict(fclose="refuse"),
+    # a target that is out of connections at first: the first 1 / 2 Forward Opens are refused, later ones accepted
+    "busy1": dict(fo_refuse_first=1),
+    "busy2": dict(fo_refuse_first=2),
     # legal but unusual identifiers: session handles and connection ids with the top bit set, and the smallest ones
     "hiids": dict(session_handles=[0x80000001, 0xFFFFFFFE, 0x7FFFFFFF, 0x80000000], conn_ids=[0x80000000, 0xFFFFFFFF, 0x00000001, 0x7FFFFFFF]),
 }
